@@ -27,6 +27,7 @@ type nodeData struct {
 	archetypes        pagedSlice[archetype] // Storage for archetypes in nodes with entity relation
 	archetypeData     pagedSlice[archetypeData]
 	neighbors         idMap[*archNode] // Mapping from component ID to add/remove, to the resulting archetype
+	hasPointers       Mask             // Components whose type contains pointers (copied with write barriers)
 	capacityIncrement uint32           // Capacity increment
 }
 
@@ -49,6 +50,9 @@ func newArchNode(mask Mask, data *nodeData, relation ID, hasRelation bool, capac
 
 		ids[i] = c.ID
 		types[i] = c.Type
+		if typeHasPointers(c.Type) {
+			data.hasPointers.Set(c.ID, true)
+		}
 		size, align := c.Type.Size(), uintptr(c.Type.Align())
 		size = (size + (align - 1)) / align * align
 		if size > maxSize {
@@ -281,4 +285,25 @@ func (a *archNode) UpdateStats(stats *stats.Node, reg *componentRegistry) {
 	stats.Capacity = cap
 	stats.Size = count
 	stats.Memory = memory
+}
+
+// typeHasPointers reports whether values of the type contain pointers the garbage collector has to trace.
+func typeHasPointers(tp reflect.Type) bool {
+	switch tp.Kind() {
+	case reflect.Bool, reflect.Int, reflect.Int8, reflect.Int16, reflect.Int32, reflect.Int64,
+		reflect.Uint, reflect.Uint8, reflect.Uint16, reflect.Uint32, reflect.Uint64, reflect.Uintptr,
+		reflect.Float32, reflect.Float64, reflect.Complex64, reflect.Complex128:
+		return false
+	case reflect.Array:
+		return tp.Len() > 0 && typeHasPointers(tp.Elem())
+	case reflect.Struct:
+		for i := 0; i < tp.NumField(); i++ {
+			if typeHasPointers(tp.Field(i).Type) {
+				return true
+			}
+		}
+		return false
+	default:
+		return true
+	}
 }
